@@ -395,7 +395,13 @@ class Soap11(XmlDocument):
             ctx.out_document.append(ctx.out_body_doc)
 
         if self.cleanup_namespaces:
-            etree.cleanup_namespaces(ctx.out_document)
+            # a prefix that only occurs in the value of an xsi:type attribute
+            # looks unused to lxml
+            keep = None
+            if self.polymorphic:
+                keep = [k for k in self.app.interface.nsmap if k is not None]
+
+            etree.cleanup_namespaces(ctx.out_document, keep_ns_prefixes=keep)
 
         self.event_manager.fire_event('after_serialize', ctx)
 
